@@ -107,6 +107,8 @@ class DataPacketQueue(utils.EventEmitter):
         """Enqueue a packet associated with a connection"""
         self._packets.appendleft((packet, connection_handle))
         self._queued += 1
+        # The connection has a packet pending, even if it cannot be sent right away
+        self._connection_state[connection_handle].drained.clear()
         self._check_queue()
 
         if self._packets:
@@ -169,7 +171,10 @@ class DataPacketQueue(utils.EventEmitter):
             # completed: don't release buffers held by other connections.
             packet_count = connection_state.in_flight
             connection_state.in_flight = 0
-        if connection_state.in_flight == 0:
+        if connection_state.in_flight == 0 and not any(
+            handle == connection_handle for (_, handle) in self._packets
+        ):
+            # Nothing in flight and nothing waiting for a free buffer
             connection_state.drained.set()
 
         if packet_count <= self._in_flight:
